@@ -436,7 +436,9 @@ static iarf_e do_space(Chunk *first, Chunk *second, int &min_sp)
    }
 
    if (  (  second->Is(CT_COMMENT)
-         || second->Is(CT_COMMENT_CPP))
+         || second->Is(CT_COMMENT_CPP)
+         || second->Is(CT_COMMENT_ENDIF)                // already marked by an earlier call
+         || second->Is(CT_COMMENT_CPP_ENDIF))
       && (  first->Is(CT_PP_ELSE)
          || first->Is(CT_PP_ENDIF)))
    {
@@ -444,7 +446,7 @@ static iarf_e do_space(Chunk *first, Chunk *second, int &min_sp)
       {
          second->SetType(CT_COMMENT_CPP_ENDIF);
       }
-      else
+      else if (second->Is(CT_COMMENT))
       {
          second->SetType(CT_COMMENT_ENDIF);
       }
